@@ -871,6 +871,8 @@ type relayFragmentSender struct {
 	outboundRelayItems *relayItems
 	origID             uint32
 	sentReporter       sentBytesReporter
+	// failed is set once a fragment could not be sent.
+	failed bool
 }
 
 func (r *Relayer) newFragmentSender(dstRelay frameReceiver, cr *lazyCallReq, origID uint32, sentReporter sentBytesReporter) *relayFragmentSender {
@@ -935,15 +937,20 @@ func (rfs *relayFragmentSender) newFragment(initial bool, checksum Checksum) (*w
 }
 
 func (rfs *relayFragmentSender) flushFragment(wf *writableFragment) error {
-	wf.frame.Header.SetPayloadSize(uint16(wf.contents.BytesWritten()))
-	rfs.sentReporter.SentBytes(wf.frame.Header.FrameSize())
+	// Once a fragment could not be sent the call has been failed (and ended):
+	// nothing further is reported or sent for it, the remaining fragments are dropped.
+	if !rfs.failed {
+		wf.frame.Header.SetPayloadSize(uint16(wf.contents.BytesWritten()))
+		rfs.sentReporter.SentBytes(wf.frame.Header.FrameSize())
 
-	sent, failure := rfs.frameReceiver.Receive(wf.frame, requestFrame)
-	if !sent {
+		sent, failure := rfs.frameReceiver.Receive(wf.frame, requestFrame)
+		if sent {
+			return nil
+		}
+		rfs.failed = true
 		rfs.failRelayItemFunc(rfs.outboundRelayItems, rfs.origID, failure, errFrameNotSent)
-		rfs.framePool.Release(wf.frame)
-		return nil
 	}
+	rfs.framePool.Release(wf.frame)
 	return nil
 }
 
